@@ -119,13 +119,14 @@ type TSA struct {
 }
 
 type TokenSpec struct {
-	Message   []byte // the bytes being timestamped (signature value)
-	Hash      crypto.Hash
-	GenTime   time.Time
-	AccuracyS int
-	OmitCerts bool
-	Hashed    []byte   // if set, the message imprint is this digest (a TSA only ever sees the digest) and Message is ignored
-	Nonce     *big.Int // echoed in the token when set
+	Message           []byte // the bytes being timestamped (signature value)
+	Hash              crypto.Hash
+	GenTime           time.Time
+	AccuracyS         int
+	OmitCerts         bool
+	Hashed            []byte   // if set, the message imprint is this digest (a TSA only ever sees the digest) and Message is ignored
+	Nonce             *big.Int // echoed in the token when set
+	NoSigningTimeAttr bool     // leave the (optional) CMS signing-time attribute out: genTime in TSTInfo is then the only time the token states
 }
 
 func hashOID(h crypto.Hash) asn1.ObjectIdentifier {
@@ -170,8 +171,10 @@ func (t *TSA) Token(spec TokenSpec) []byte {
 	attrs := []attribute{
 		{Type: oidContentType, Values: rawOf([]interface{}{oidTSTInfo}, "set")},
 		{Type: oidMessageDigest, Values: rawOf([]interface{}{infoDigest[:]}, "set")},
-		{Type: oidSigningTime, Values: rawOf([]interface{}{spec.GenTime.UTC()}, "set")},
 		{Type: oidSigningCertificateV2, Values: rawOf([]interface{}{signingCertV2{Certificates: []essCertIDv2{{CertHash: certHash[:]}}}}, "set")},
+	}
+	if !spec.NoSigningTimeAttr {
+		attrs = append(attrs[:2:2], append([]attribute{{Type: oidSigningTime, Values: rawOf([]interface{}{spec.GenTime.UTC()}, "set")}}, attrs[2:]...)...)
 	}
 	si := signerInfo{
 		Version:          1,
